@@ -209,6 +209,13 @@ Proof.
   split; [exact (not_integral_differs umin sf H7) | exact (not_integral_differs umax sf H7)].
 Qed.
 
+(* the extracted checker the failing-input search applies to the grids observed on the real
+   code is sound for the Spec: no bad pixel reported -> finer_spec holds of those grids *)
+Theorem C15_spec_checker_sound : forall ws marge sf rows cols D V ulo uhi h w G,
+  finer_spec_bad ws marge sf rows cols D V ulo uhi h w G = [] ->
+  finer_spec ws marge sf rows cols D V ulo uhi h w G.
+Proof. exact finer_spec_bad_sound. Qed.
+
 (* ---------------------------------------------------------------- witnesses, non-vacuity *)
 
 (* the recorded finding on its witness: level 0 searches [-6, 3] instead of [-7, 4] *)
@@ -266,3 +273,4 @@ Print Assumptions C15_finer_interval_as_computed.
 Print Assumptions C15_fallback_refuted.
 Print Assumptions C15_finer_interval.
 Print Assumptions C15_fallback_finding_class.
+Print Assumptions C15_spec_checker_sound.
